@@ -225,10 +225,52 @@ func (m *c01Monitor) AfterTx(r *Run, ctx sdk.Context, tx *TxResult) {
 	m.step(r, cur, allowed, false, what)
 }
 
+// nstLowerBound: a negative adjustment -a taken from delegated shares goes through 18-digit fixed
+// point share arithmetic (proportion = a / delegated, share * proportion, shares -> tokens), so the
+// amount actually removed may differ from a by a relative 1e-15 (observed: 79 base units on
+// 1.8e20); what is exact is that the sum moves with the recorded total deposit.
+func nstLowerBound(a *big.Int) *big.Int {
+	slack := new(big.Int).Quo(new(big.Int).Abs(a), big.NewInt(1_000_000_000_000_000))
+	slack.Add(slack, big.NewInt(1000))
+	return new(big.Int).Sub(a, slack)
+}
+
 // AfterDirect: a direct slash call behaves like the slashing part of BeginBlock.
 func (m *c01Monitor) AfterDirect(r *Run, ctx sdk.Context, op Op) {
 	if op.K == "kslash" {
 		m.step(r, r.Ledger(ctx), nil, true, "direct-slash")
+	}
+	if op.K == "nstupd" && r.LastNST != nil {
+		up := r.LastNST
+		cur := r.Ledger(ctx)
+		key := up.StakerID + "/" + up.AssetID
+		d := new(big.Int).Sub(cur.Total(up.AssetID), m.prev.Total(up.AssetID))
+		depOf := func(l *Ledger) *big.Int {
+			if s, ok := l.Stakers[key]; ok && !s.TotalDepositAmount.IsNil() {
+				return s.TotalDepositAmount.BigInt()
+			}
+			return new(big.Int)
+		}
+		dep := new(big.Int).Sub(depOf(cur), depOf(m.prev))
+		switch {
+		case up.Err != nil:
+			m.step(r, cur, nil, false, "nst-adjustment:refused")
+			return
+		case d.Cmp(dep) != 0:
+			r.Violate(m.Name(), "sum-changes-only-by-flows", "nst-adjustment:sum-vs-recorded-deposit", fmt.Sprintf("native-restaking adjustment of %s for %s: the asset's sum changed by %s but the staker's recorded total deposit by %s", up.Amount, key, d, dep))
+			return
+		case up.Amount.Sign() > 0 && d.Cmp(up.Amount) != 0:
+			r.Violate(m.Name(), "sum-changes-only-by-flows", "nst-adjustment:positive", fmt.Sprintf("positive native-restaking adjustment of %s for %s changed the sum by %s", up.Amount, key, d))
+			return
+		case up.Amount.Sign() < 0 && (d.Sign() > 0 || d.Cmp(nstLowerBound(up.Amount)) < 0):
+			r.Violate(m.Name(), "sum-changes-only-by-flows", "nst-adjustment:negative", fmt.Sprintf("negative native-restaking adjustment of %s for %s changed the sum by %s", up.Amount, key, d))
+			return
+		}
+		r.Probe("c01_nst_adjustment_checked")
+		if up.Amount.Sign() < 0 && len(m.prev.Records) > 0 {
+			r.Probe("c01_nst_decrease_with_pending_undelegations")
+		}
+		m.step(r, cur, map[string]*big.Int{up.AssetID: d}, false, "nst-adjustment")
 	}
 }
 
